@@ -42,7 +42,12 @@ import (
 
 type cfg struct {
 	ids int
+	// attached: start from the reachable state "one session replicated, stream
+	// attached, everything delivered" (prefix Add(1) FullSync Attach BroadcastOne Deliver)
+	attached bool
 }
+
+var attachedPrefix = []string{"Add(1)", "FullSync", "Attach", "BroadcastOne", "Deliver"}
 
 // msgDesc mirrors one pushed change (harness bookkeeping for queues and classification).
 type msgDesc struct {
@@ -174,6 +179,14 @@ func newSys(c cfg) *sys {
 	s.standby = ha.NewHASyncer(sc, s.sStore, zap.NewNop())
 	s.rt = &memTransport{h: s.active.VerifC13Handler()}
 	s.standby.VerifC13SetTransport(s.rt)
+	if c.attached {
+		for _, op := range attachedPrefix {
+			s.Apply(op)
+		}
+		if s.phase != phAttached || len(s.pending) != 0 || len(s.undelivered()) != 0 || s.sStore.GetSessionCount() != 1 {
+			panic("harness: attached initial state not reached")
+		}
+	}
 	return s
 }
 
@@ -567,13 +580,17 @@ func models(t *testing.T, run *report.Run) []*explore.Model {
 	if run.Thorough() {
 		ids, depth, nd = 4, 7, 4
 	}
-	c := cfg{ids: ids}
-	return []*explore.Model{{
-		Name: "ha.HASyncer-pair", Config: fmt.Sprintf("ids=%d", ids),
-		New:   func() explore.System { return newSys(c) },
-		Depth: depth, NoDedupDepth: nd, Classify: classify, Budget: 12 * time.Minute,
-		Exec: func(body func()) { synctest.Test(t, func(*testing.T) { body() }) },
-	}}
+	var ms []*explore.Model
+	for _, c := range []cfg{{ids: ids}, {ids: ids, attached: true}} {
+		c := c
+		ms = append(ms, &explore.Model{
+			Name: "ha.HASyncer-pair", Config: fmt.Sprintf("ids=%d attached=%v", c.ids, c.attached),
+			New:   func() explore.System { return newSys(c) },
+			Depth: depth, NoDedupDepth: nd, Classify: classify, Budget: 8 * time.Minute,
+			Exec: func(body func()) { synctest.Test(t, func(*testing.T) { body() }) },
+		})
+	}
+	return ms
 }
 
 func TestCheck(t *testing.T) {
@@ -611,7 +628,7 @@ func replay(run *report.Run, ms []*explore.Model) int {
 	for _, m := range ms {
 		if strings.HasPrefix(v.Part, m.Name+"[") {
 			var c cfg
-			fmt.Sscanf(v.Config, "ids=%d", &c.ids)
+			fmt.Sscanf(v.Config, "ids=%d attached=%t", &c.ids, &c.attached)
 			m.New = func() explore.System { return newSys(c) }
 			vs, p := m.Replay(v.Trace)
 			if p != "" {
